@@ -1,0 +1,21 @@
+//go:build verif
+
+// Contracts for the verification machinery in /verif (comment-only; compiled only with -tags verif).
+
+package operationapplier
+
+// ---- C05: anchoring-time window ----
+//
+//@ spec effUntil(from int64, until int64, delta uint64) Z { cond(from != 0 && until == 0, from + delta, until) }
+//@ spec inWindow(from int64, until int64, anchor uint64, delta uint64) bool {
+//@     (from == 0 && until == 0) || (from <= anchor && anchor <= effUntil(from, until, delta)) }
+//@ spec saneWindow(from int64, until int64, delta uint64) bool {
+//@     0 <= from && from < 4611686018427387904 && 0 <= until && until < 4611686018427387904 && delta < 4611686018427387904 }
+//
+//@ func (*Applier).getAnchorUntil
+//@   requires s != nil && saneWindow(from, until, s.MaxOperationTimeDelta)
+//@   ensures  result == effUntil(from, until, s.MaxOperationTimeDelta)
+//
+//@ func (*Applier).verifyAnchoringTimeRange
+//@   requires s != nil && saneWindow(from, until, s.MaxOperationTimeDelta) && anchor < 4611686018427387904
+//@   ensures  (result == nil) == inWindow(from, until, anchor, s.MaxOperationTimeDelta)
